@@ -430,7 +430,9 @@ def monitor(case, out):
 
 # ----------------------------------------------------------------------------- running
 def run_impl(ctx, exe, case):
-    rc, out, err = ctx.run(exe, text="\n".join(case) + "\n", timeout=60, env={"ASAN_OPTIONS": "detect_leaks=0:exitcode=99"})
+    # a case runs in milliseconds (long ring histories: about a second); the cap only bounds a hang
+    rc, out, err = ctx.run(exe, text="\n".join(case) + "\n", timeout=10 if len(case) < 400 else 40,
+                           env={"ASAN_OPTIONS": "detect_leaks=0:exitcode=99"})
     return rc, out.splitlines(), err
 
 
@@ -454,6 +456,10 @@ def model_input(case, iout):
 
 def check_case(ctx, exe, case):
     rc, il, err = run_impl(ctx, exe, case)
+    if rc == -999:
+        lastop = next((l for l in reversed(il) if l.startswith("op ")), "")
+        return Bad("harness-timeout", f"the program did not finish (libuv blocked or spinning) after `{lastop}`, "
+                   f"{sum(1 for l in il if l.startswith('op '))} ops into the program"), il
     if rc != 0:
         lastop = next((l for l in reversed(il) if l.startswith("op ")), "")
         return Bad("harness-crash", f"harness exited {rc} (abort()/assert/sanitizer inside libuv) after `{lastop}`, "
@@ -468,6 +474,17 @@ def check_case(ctx, exe, case):
 
 def shrink(ctx, exe, case, sig):
     cur = list(case)
+    if sig == "harness-timeout":
+        # every candidate costs the full time cap: drop whole tail/head chunks only, at most ~20 runs
+        n = 0
+        for step in (len(cur) // 2, len(cur) // 4, len(cur) // 8):
+            while step > 0 and n < 20 and len(cur) > step + 4:
+                cand = cur[:-step]
+                n += 1
+                r, _ = check_case(ctx, exe, cand)
+                if isinstance(r, Bad) and r.sig == sig: cur = cand
+                else: break
+        return cur
     # never shrink away the preamble that makes scripted batches legal (the first handle started on fd 100 sizes
     # loop->watchers; without it a scripted event for fd >= nwatchers trips libuv's own assert on any tree)
     keep = {l for l in cur[:40] if l.startswith("cfg") or l.startswith("openfd 100 ") or l == "pinit 100" or l.startswith("pstart 0 ")}
@@ -669,7 +686,7 @@ def run(ctx):
             return False
         ctx.validated()
         return True
-    fgood = True
+    fgood = good and not ctx.broken and not ctx.violations
     for fname, sig, expect in FINDINGS:
         if fgood and sig in ctx.known and (fdir / fname).exists():
             c = [l for l in (fdir / fname).read_text().splitlines() if l.strip()]
@@ -679,7 +696,7 @@ def run(ctx):
         for k in range(ctx.scale(60, 1500)):
             if not run_discipline_off(gen_multi_case(mrng), IDLE_DEL, None, "two handles on one descriptor number"):
                 fgood = False; break
-    if not fgood: return
+    if not fgood: good = False          # fall through to the monitor search below
     total = ctx.scale(1200, 40000)
     done = 0
     while good and done < total and not ctx.violations:
